@@ -1,0 +1,19 @@
+//! Verification-only trace hook (compiled only with `--cfg rusty_paseto_verif`).
+//!
+//! A thread-local, append-only event log.  The library emits an event from inside the primitive
+//! that turns ciphertext into plaintext; an external monitor drains the log after each call.
+use std::cell::RefCell;
+
+thread_local! {
+  static LOG: RefCell<Vec<&'static str>> = const { RefCell::new(Vec::new()) };
+}
+
+/// Append one event to the calling thread's log
+pub fn emit(tag: &'static str) {
+  LOG.with(|l| l.borrow_mut().push(tag));
+}
+
+/// Drain and return the calling thread's log
+pub fn take() -> Vec<&'static str> {
+  LOG.with(|l| std::mem::take(&mut *l.borrow_mut()))
+}
